@@ -62,3 +62,30 @@ package slip
 //@   ensures radix-16: (p.Radix && p.Base == 16) ==> (result[len(b)] == '#' && result[len(b) + 1] == 'x' && (forall j :: (0 <= j && j < ndigbig(obj, 16)) ==> result[len(b) + 2 + j] == digbig(obj, 16, j)))
 //@   ensures radix-10: (p.Radix && p.Base == 10) ==> (len(result) == len(b) + ndigbig(obj, 10) + 1 && result[len(result) - 1] == '.')
 //@   ensures radix-n: (p.Radix && p.Base != 2 && p.Base != 8 && p.Base != 16 && p.Base != 10) ==> (len(result) == len(b) + 2 + ndig(p.Base, 10) + ndigbig(obj, p.Base) && result[len(b)] == '#' && (forall j :: (0 <= j && j < ndig(p.Base, 10)) ==> result[len(b) + 1 + j] == dig(p.Base, 10, j)) && result[len(b) + 1 + ndig(p.Base, 10)] == 'r' && (forall j :: (0 <= j && j < ndigbig(obj, p.Base)) ==> result[len(b) + 2 + ndig(p.Base, 10) + j] == digbig(obj, p.Base, j)))
+
+// ---------------------------------------------------------------------------
+// C02: reading is a function of the text, not of its delivery.
+
+// A token that is cut by a stream read is the bytes carried over from the
+// earlier reads followed by the bytes of this block.
+//@ func slip.(*reader).makeToken
+//@   property C02
+//@   requires window: 0 <= r.tokenStart && r.tokenStart <= r.pos && r.pos <= len(src)
+//@   ensures length: len(token) == old(len(r.carry)) + (r.pos - r.tokenStart)
+//@   ensures carried-first: forall j :: (0 <= j && j < old(len(r.carry))) ==> token[j] == old(r.carry[j])
+//@   ensures block-after: forall j :: (0 <= j && j < r.pos - r.tokenStart) ==> token[old(len(r.carry)) + j] == old(src[r.tokenStart + j])
+//@   ensures carry-consumed: len(r.carry) == 0 && idof(r.carry) == old(idof(r.carry))
+//@   ensures canary-drop: len(token) == r.pos - r.tokenStart
+
+// At the end of a block that is not the last one the pending bytes are added
+// to (never replace) what was carried so far; when a string or |symbol| starts
+// the escape buffer is empty; at the end of the input an unfinished form is
+// reported, never dropped.
+//@ func slip.(*reader).read
+//@   property C02 C03
+//@   on-store carry extends-len: len(now) == len(was) + (r.pos - r.tokenStart)
+//@   on-store carry extends-prefix: forall j :: (0 <= j && j < len(was)) ==> now[j] == was[j]
+//@   on-store carry extends-block: idof(was) != idof(src) ==> (forall j :: (0 <= j && j < r.pos - r.tokenStart) ==> now[len(was) + j] == src[r.tokenStart + j])
+//@   on-store mode=stringMode fresh-buffer: len(r.buf) == 0
+//@   on-store mode=symbolMode fresh-buffer: len(r.buf) == 0
+//@   ensures no-silent-loss: (!r.more && !(r.one && len(r.code) > 0)) ==> len(r.stack) == 0
